@@ -14,6 +14,7 @@ with open(os.path.join(core.SPEC, "Session_cfgs.json")) as _index_file:
 BOTH = ("delimited", "fixed")
 FIXED_VARIANTS = ("fixed:none", "fixed:crlf", "fixed:cr", "fixed:any")
 RW = session_check.READ_ACTIONS + session_check.WRITE_ACTIONS
+FILE_TARGETS = ("delimited@file", "fixed@file", "fixed:none@file")
 
 # property -> tier -> list of steps (cfg name, formats, required actions, max_replay, simulate, depth)
 PLANS = {
@@ -32,15 +33,19 @@ PLANS = {
                   ("c05_ck2", ("delimited",), session_check.READ_ACTIONS, None, None, None),
                   ("c05_ck3", ("delimited",), session_check.READ_ACTIONS, None, None, None),
                   ("c05_ck4", ("delimited",), session_check.READ_ACTIONS, None, None, None),
-                  ("c05_uu", ("delimited",), session_check.READ_ACTIONS, None, None, None)],
-        "thorough": [("c05_ck%d" % n, BOTH, session_check.READ_ACTIONS, None, None, None) for n in range(1, 9)]
+                  ("c05_uu", ("delimited",), session_check.READ_ACTIONS, None, None, None),
+                  # "of the same data set": readers created early and read after other data sets went through the CID
+                  ("c08_park2", ("delimited",), RW + ["Park", "Resume"], 3000, None, None)],
+        "thorough": [("c08_park2", BOTH, RW + ["Park", "Resume"], None, None, None)] + [("c05_ck%d" % n, BOTH, session_check.READ_ACTIONS, None, None, None) for n in range(1, 9)]
         + [("c05_ck%d_t5" % n, ("delimited",), session_check.READ_ACTIONS, None, None, None) for n in range(1, 9)]
         + [("c05_uu", BOTH, session_check.READ_ACTIONS, None, None, None)],
     },
     "C06": {
         "quick": [("c06_reader", ("delimited",), session_check.READ_ACTIONS + ["ReaderFault"], None, None, None),
-                  ("c04_h0", ("fixed",), session_check.READ_ACTIONS + ["ReaderFault"], None, None, None)],
-        "thorough": [("c06_reader", BOTH, session_check.READ_ACTIONS + ["ReaderFault"], None, None, None),
+                  ("c04_h0", ("fixed",), session_check.READ_ACTIONS + ["ReaderFault"], None, None, None),
+                  # the modes also agree when only a prefix of the rows is validated
+                  ("c07_h1", ("delimited",), session_check.READ_ACTIONS, None, None, None)],
+        "thorough": [("c07_h1_t5", BOTH, session_check.READ_ACTIONS, None, None, None), ("c06_reader", BOTH, session_check.READ_ACTIONS + ["ReaderFault"], None, None, None),
                      ("c06_reader_h0", BOTH, session_check.READ_ACTIONS + ["ReaderFault"], None, None, None),
                      ("c04_quick", BOTH, session_check.READ_ACTIONS + ["ReaderFault"], None, None, None),
                      ("c04_h0", BOTH, session_check.READ_ACTIONS + ["ReaderFault"], None, None, None),
@@ -51,16 +56,24 @@ PLANS = {
         "thorough": [("c07_h%d_t5" % h, BOTH + ("cli",), session_check.READ_ACTIONS, None, None, None) for h in range(0, 4)],
     },
     "C08": {
-        "quick": [("c08_hist2", ("delimited",), RW, 4000, None, None)],
+        "quick": [("c08_hist2", ("delimited",), RW, 4000, None, None),
+                  ("c08_park2", ("delimited",), RW + ["Park", "Resume"], 3000, None, None)],
         "thorough": [("c08_hist2", BOTH, RW, None, None, None),
+                     ("c08_park2", BOTH, RW + ["Park", "Resume"], None, None, None),
+                     ("c08_park3", (), RW + ["Park", "Resume"], 0, None, None),
                      ("c08_hist4sim", ("delimited",), RW, 60000, 3000, 60),
                      ("c08_hist3", (), RW, 0, None, None)],
     },
     "C14": {
         "quick": [("c14_h0_t3", BOTH + ("fixed:none",), session_check.WRITE_ACTIONS, None, None, None),
-                  ("c14_h1_t3", BOTH + ("fixed:none", "fixed:crlf"), session_check.WRITE_ACTIONS, None, None, None)],
+                  ("c14_h1_t3", BOTH + ("fixed:none", "fixed:crlf"), session_check.WRITE_ACTIONS, None, None, None),
+                  # targets with a limited encoding: rows the CID accepts and the container refuses
+                  ("c14_enc_h0", FILE_TARGETS, session_check.WRITE_ACTIONS, None, None, None),
+                  ("c14_enc_h1", ("fixed@file",), session_check.WRITE_ACTIONS, None, None, None)],
         "thorough": [("c14_h0_t4", BOTH + FIXED_VARIANTS, session_check.WRITE_ACTIONS, None, None, None),
-                     ("c14_h1_t4", BOTH + FIXED_VARIANTS, session_check.WRITE_ACTIONS, None, None, None)],
+                     ("c14_h1_t4", BOTH + FIXED_VARIANTS, session_check.WRITE_ACTIONS, None, None, None),
+                     ("c14_enc_h0", FILE_TARGETS + ("fixed:crlf@file", "fixed:cr@file"), session_check.WRITE_ACTIONS, None, None, None),
+                     ("c14_enc_h1", FILE_TARGETS + ("fixed:crlf@file", "fixed:cr@file"), session_check.WRITE_ACTIONS, None, None, None)],
     },
 }
 
@@ -69,7 +82,9 @@ PLANS = {
 PINNED = {
     "C05": [("c05_uu_pinned", "D12 register-on-reach")],
     "C06": [("c06_pinned_endchecks", "D8 end checks replace the error that ended the run")],
-    "C08": [("c08_pinned_reset", "D2/D13 checks are not reset when a reader or writer is created")],
+    "C08": [("c08_pinned_reset", "D2/D13 checks are not reset when a reader or writer is created"),
+            ("c08_pinned_start", "checks are not reset at the start of rows(): a reader created early and read late inherits "
+                                 "what other readers and writers did in between")],
 }
 
 ASSUMPTIONS = [
